@@ -139,7 +139,7 @@ func (fr *Frame) stringConst(st *State, t types.Type, s string) Val {
 		return v
 	}
 	obj := fr.ctx.Fresh("str", SInt)
-	fr.ctx.Assume(And(Not(Eq(obj, Nil)), IntCmp("<", top.stamp(obj), top.alloc0)))
+	fr.ctx.Assume(And(Eq(obj, IntT(int64(-5000-len(top.strObjs)))), IntCmp("<", top.stamp(obj), top.alloc0)))
 	// content: the bytes live in the entry heap and string objects are never written
 	if len(s) <= 64 {
 		h := top.entryHeap(elemHeap(types.Typ[types.Uint8], ""), byteHeapSort)
